@@ -176,12 +176,24 @@ func (e *Env) RCursor(withFileOrder bool) {
 					case e.isRestorerField(info, l, "comments"):
 						nComments++
 						ok := false
+						why := "the free comment list is append-only (comments stay in position order because the cursor is monotone)"
 						if rhs != nil {
 							r := c.ExprStr(rhs)
-							ok = strings.HasPrefix(r, "append(r.comments, ") || (e.isResetCtx(fd) && r == "[]*CommentGroup{}")
+							ok = strings.HasPrefix(r, "append(r.comments, ")
+							if !ok && e.isResetCtx(fd) {
+								switch form, first := e.resetForm(c, info, rhs, "comments"); {
+								case form == "fresh" && first == "":
+									ok = true
+								case form == "truncate" && first == "":
+									if at, esc := e.bufferEscapes("comments"); esc {
+										why = "the comment buffer is cut to length 0 and refilled for the next file, but the same array was handed out at " + at + ": the comments of the file restored before are overwritten"
+									} else {
+										ok = true
+									}
+								}
+							}
 						}
-						e.Run.Check("R-CURSOR", fmt.Sprintf("comment list store in %s: %s", fname, exprOr(c, rhs)), e.Prog.Pos(s.Pos()), ok,
-							"the free comment list is append-only (comments stay in position order because the cursor is monotone)")
+						e.Run.Check("R-CURSOR", fmt.Sprintf("comment list store in %s: %s", fname, exprOr(c, rhs)), e.Prog.Pos(s.Pos()), ok, why)
 					case e.isRestorerField(info, l, "cursorAtNewLine"):
 						nMarker++
 						ok := rhs != nil && (isCursor(rhs) || (e.isResetCtx(fd) && c.ExprStr(rhs) == "0"))
@@ -299,9 +311,16 @@ func (e *Env) linesStore(c *schema.Ctx, info *types.Info, fd *ast.FuncDecl, s *a
 	if rhs == nil {
 		return false, "multi-assignment"
 	}
-	r := c.ExprStr(rhs)
-	if r == "[]int{0}" {
-		return e.isResetCtx(fd), "the line table may only be reset in RestoreFile"
+	if form, first := e.resetForm(c, info, rhs, "lines"); form != "" && first == "0" {
+		if !e.isResetCtx(fd) {
+			return false, "the line table may only be reset in RestoreFile"
+		}
+		if form == "truncate" {
+			if at, esc := e.bufferEscapes("lines"); esc {
+				return false, "the line table is cut to length 0 and refilled for the next file, but the same array was handed out at " + at + " (token.File.SetLines keeps the slice it is given): the line table of the file restored before is overwritten"
+			}
+		}
+		return true, ""
 	}
 	call, ok := rhs.(*ast.CallExpr)
 	if !ok || len(call.Args) != 2 || c.ExprStr(call.Fun) != "append" || c.ExprStr(call.Args[0]) != "r.lines" {
@@ -1596,4 +1615,158 @@ func (e *Env) isResetCtx(fd *ast.FuncDecl) bool {
 		}
 	}
 	return false
+}
+
+// resetForm classifies the right-hand side of a reset of a per-file buffer (r.lines or
+// r.comments): "fresh" — a new empty slice (empty composite literal, nil, make with length 0);
+// "truncate" — the old array cut to length 0 (r.F[:0]); "" — neither. first, when not nil, is the
+// single element a fresh table starts with ([]int{0}, append(<empty>, 0), make([]int, 1)).
+func (e *Env) resetForm(c *schema.Ctx, info *types.Info, rhs ast.Expr, field string) (form string, first string) {
+	rhs = ast.Unparen(rhs)
+	switch x := rhs.(type) {
+	case *ast.Ident:
+		if x.Name == "nil" && info.Types[x].IsNil() {
+			return "fresh", ""
+		}
+	case *ast.CompositeLit:
+		if _, ok := info.TypeOf(x).Underlying().(*types.Slice); ok {
+			switch len(x.Elts) {
+			case 0:
+				return "fresh", ""
+			case 1:
+				if _, kv := x.Elts[0].(*ast.KeyValueExpr); !kv {
+					return "fresh", c.ExprStr(x.Elts[0])
+				}
+			}
+		}
+	case *ast.SliceExpr:
+		if e.isRestorerField(info, x.X, field) && x.Low == nil && x.High != nil && !x.Slice3 {
+			if tv := info.Types[x.High]; tv.Value != nil && tv.Value.String() == "0" {
+				return "truncate", ""
+			}
+		}
+	case *ast.CallExpr:
+		id, ok := x.Fun.(*ast.Ident)
+		if !ok {
+			return "", ""
+		}
+		if _, isB := info.Uses[id].(*types.Builtin); !isB {
+			return "", ""
+		}
+		switch id.Name {
+		case "make":
+			if len(x.Args) >= 2 {
+				if tv := info.Types[x.Args[1]]; tv.Value != nil {
+					switch tv.Value.String() {
+					case "0":
+						return "fresh", ""
+					case "1":
+						return "fresh", "0" // the zero value
+					}
+				}
+			}
+		case "append":
+			if len(x.Args) == 2 && !x.Ellipsis.IsValid() {
+				if f, fst := e.resetForm(c, info, x.Args[0], field); f != "" && fst == "" {
+					return f, c.ExprStr(x.Args[1])
+				}
+			}
+		}
+	}
+	return "", ""
+}
+
+// bufferEscapes: is the slice held in FileRestorer.<field> ever handed out by reference (passed
+// to a function that may keep it, assigned to another variable or field, returned, stored in a
+// literal)? Reading it (len, cap, range, index), appending to it in place and copying its elements
+// (append(x, r.F...), copy(dst, r.F)) do not hand it out. Returns the first place where it does.
+func (e *Env) bufferEscapes(field string) (string, bool) {
+	pkg := e.Prog.Pkg(load.PkgDecorator)
+	info := pkg.TypesInfo
+	where := ""
+	for _, fd := range load.AllFuncDecls(pkg) {
+		if fd.Body == nil || where != "" {
+			continue
+		}
+		var stack []ast.Node
+		ast.Inspect(fd.Body, func(n ast.Node) bool {
+			if n == nil {
+				stack = stack[:len(stack)-1]
+				return true
+			}
+			stack = append(stack, n)
+			x, ok := n.(ast.Expr)
+			if !ok || where != "" || !e.isRestorerField(info, x, field) {
+				return true
+			}
+			// climb through slicing and parentheses
+			i := len(stack) - 2
+			cur := ast.Node(x)
+			for i >= 0 {
+				switch p := stack[i].(type) {
+				case *ast.ParenExpr:
+					cur = p
+					i--
+					continue
+				case *ast.SliceExpr:
+					if p.X == cur {
+						cur = p
+						i--
+						continue
+					}
+				}
+				break
+			}
+			if i < 0 {
+				return true
+			}
+			esc := false
+			switch p := stack[i].(type) {
+			case *ast.AssignStmt:
+				for _, l := range p.Lhs {
+					if l == cur {
+						return true // a store into the field
+					}
+				}
+				// on the right: only `r.F = r.F[...]`
+				for k, r := range p.Rhs {
+					if r == cur {
+						esc = !(len(p.Lhs) == len(p.Rhs) && e.isRestorerField(info, p.Lhs[k], field))
+					}
+				}
+			case *ast.IndexExpr:
+				esc = p.X != cur // r.F[i] reads an element; x[r.F] cannot be
+			case *ast.RangeStmt:
+				esc = false
+			case *ast.CallExpr:
+				id, isID := p.Fun.(*ast.Ident)
+				_, isB := info.Uses[id].(*types.Builtin)
+				switch {
+				case isID && isB && (id.Name == "len" || id.Name == "cap"):
+				case isID && isB && id.Name == "copy":
+				case isID && isB && id.Name == "append":
+					if len(p.Args) > 0 && p.Args[0] == cur {
+						// append(r.F, …): the result must go back into the field
+						esc = true
+						if i-1 >= 0 {
+							if as, ok := stack[i-1].(*ast.AssignStmt); ok && len(as.Lhs) == 1 && e.isRestorerField(info, as.Lhs[0], field) {
+								esc = false
+							}
+						}
+					} else if !(p.Ellipsis.IsValid() && p.Args[len(p.Args)-1] == cur) {
+						esc = true // appended as one element (a slice of slices)
+					}
+				default:
+					esc = true
+				}
+			default:
+				esc = true
+			}
+			if esc {
+				where = e.Prog.Pos(x.Pos())
+			}
+			return true
+		})
+	}
+	return where, where != ""
 }
